@@ -285,15 +285,20 @@ func callFork(c *FnCall) (o fnOut) {
 			}
 			t := PrefilledTarget(c.Target, c.TypeSeed, c.Prefill)
 			var err error
+			// the caller's buffer: reused for something else as soon as the call has returned
+			in := append(make([]byte, 0, len(c.Text)), c.Text...)
 			switch c.Fn {
 			case FUnmarshal:
-				err = fj.Unmarshal(c.Text, t)
+				err = fj.Unmarshal(in, t)
 			case FUnmarshalWithKeys:
-				o.Keys, err = fj.UnmarshalWithKeys(c.Text, t)
+				o.Keys, err = fj.UnmarshalWithKeys(in, t)
 			case FUnmarshalValid:
-				err = fj.UnmarshalValid(c.Text, t)
+				err = fj.UnmarshalValid(in, t)
 			case FUnmarshalValidWithKeys:
-				o.Keys, err = fj.UnmarshalValidWithKeys(c.Text, t)
+				o.Keys, err = fj.UnmarshalValidWithKeys(in, t)
+			}
+			for i := range in {
+				in[i] = '7'
 			}
 			o.Keys = append([]string(nil), o.Keys...)
 			if (c.Fn == FUnmarshalWithKeys || c.Fn == FUnmarshalValidWithKeys) && err == nil && isMapTarget(c.Target) && len(c.Prefill) == 0 {
